@@ -81,6 +81,23 @@ def check_tensor(rec, t, dims, modes, ordering, want_nonzero, supplied, what, ct
     ex = t.to_dok(explicit_zeros=True)
     if ex != decoded:
         return viol("to_dok-explicit-zeros")
+    # what a read returns belongs to the caller: editing it must not change what the next read returns
+    # (multi-step: read, edit the result, read again)
+    indices_view, vals_view = t.taco_indices, t.taco_vals
+    before = (dict(dok), dict(ex), list(items), repr(indices_view), list(vals_view))
+    junk = tuple(0 for _ in dims)
+    dok[junk] = 12345.0
+    ex.clear()
+    items.clear()
+    vals_view[:] = [99.0] * len(vals_view)
+    for lvl in indices_view:
+        for arr in lvl:
+            arr[:] = [7] * len(arr)
+    again = (t.to_dok(), t.to_dok(explicit_zeros=True), list(t.items()), repr(t.taco_indices), list(t.taco_vals))
+    if again != before:
+        which = [n for n, a, b in zip(("to_dok", "to_dok(explicit_zeros)", "items", "taco_indices", "taco_vals"), again, before) if a != b]
+        return viol("read-changed-after-caller-edited-an-earlier-result", reads=which)
+    rec.count("reread_after_editing_results")
     # stored coordinates must come from the supplied ones or from dense fill
     if supplied is not None:
         ind, vals = taco.build({c: 1.0 for c in supplied}, dims, modes, ordering)
